@@ -14,8 +14,11 @@ CLAIM = dict(
     text="PARTIAL. Proved: D_H = -V*dEig_inv is anti-Hermitian for Hermitian V and real energies (degenerate pairs "
          "included); the internal Berry-curvature contributions A->B and B->A of any two band sets cancel; summed "
          "over ANY partition of all bands (in particular the groups built by get_borders, with or without Kramers "
-         "pairing) the internal Berry curvature traced as the calculators trace it is zero at every k; hence a "
-         "Fermi-sea sum with the Fermi level above all bands vanishes.  NOT proved (topology + quadrature): AHC*c of a "
+         "pairing, and the groups of a Fermi-sea calculator INCLUDING the lumped block (0,bandmax) of "
+         "get_bands_in_range_groups_ik(sea=True), which partition the bands because bandmax is clamped to the first "
+         "group in range - also when the lowest Fermi level lies inside a multiplet) the internal Berry curvature "
+         "traced as the calculators trace it is zero at every k; hence a Fermi-sea sum with the Fermi level above all "
+         "bands vanishes.  NOT proved (topology + quadrature): AHC*c of a "
          "gapped 2D model is an integer multiple of e^2/h - checked by the oracle only (Haldane models from "
          "models.Haldane_ptb/Haldane_tbm in trivial and topological phases, with random perturbations and random "
          "external-term matrices, against an independent Fukui-Hatsugai-Suzuki Chern number; 2 %, sign pinned).",
@@ -25,7 +28,8 @@ CLAIM = dict(
 )
 TRUSTED = [
     "modelled: Data_K.dEig_inv (threshold mask), Data_K.D_H, Omega.nn internal term incl. Hermitian completion, "
-    "Formula_ln.trace, the inn/out index sets of StaticCalculator/Tabulator blocks; get_borders via the C15 model",
+    "Formula_ln.trace, the inn/out index sets of StaticCalculator/Tabulator blocks; get_borders via the C15 model; "
+    "Data_K.get_bands_in_range_groups_ik(sea=True) incl. get_bands_below_range and the clamp of bandmax",
     "not modelled (oracle only): eigh, _rotate, R_to_k, the Efermi accumulation of StaticCalculator, tetrahedron weights, "
     "external terms of Omega, model builders Haldane_ptb/Haldane_tbm and System_PythTB/System_TBmodels",
     "quantisation of AHC*c (topology + discretisation error) is NOT a theorem: oracle only, hence the claim is partial",
@@ -34,7 +38,9 @@ TRUSTED = [
 RULE = ("corr: 2-6 bands, sorted dyadic energies with exact and sub-threshold degeneracies, Hermitian Gaussian-dyadic "
         "velocity matrices, contiguous and scattered inn sets, groupings from get_borders; oracle: random Hermitian "
         "systems (2-6 Wannier functions, spin-doubled ones included), random/special k, random band partitions, "
-        "run() with Efermi grids ending above all bands, Haldane-type models in both phases.  non-trivial = at least "
+        "run() with Efermi grids ending above all bands, the lowest Fermi level placed between / at the members of an "
+        "exact (spin-doubled or tuned) or near-degenerate (2e-5 .. 0.02, degen_thresh 1e-4 and 0.05) multiplet of a grid "
+        "k-point with CumDOS checked in the same run, Haldane-type models in both phases.  non-trivial = at least "
         "one block has a non-zero internal curvature (sum rule) / the model is gapped with margin (Chern); "
         "distinct = distinct (kind, seed, parameters)")
 
@@ -149,9 +155,17 @@ def corr(ctx):
                 mag += np.abs(tr).max()
             lines.append(f"blocks {head} {flatV(re)} {flatV(im)} {ints(borders)}")
             checks.append(("blocks", tot, dict(case, borders=borders, sum_abs_block_traces=mag)))
+    sea_corr(ctx, lines, checks)
     out = ctx.lean(lines)
     for line, o, (kind, got, case) in zip(lines, out, checks):
         ctx.case(signature=line, nontrivial=True)
+        if kind == "sea":
+            want = [] if o == "_" else [tuple(int(x) for x in t.split(",")) for t in o.split(";")]
+            keys, neginf = got
+            if sorted(want) != sorted(keys) or len(want) != len(set(want)) or (neginf and want[0] != neginf[0]) \
+                    or (not neginf and len(want) and want[0][0] == 0 and want[0] not in keys):
+                ctx.mismatch("sea groups: model and code differ", dict(case=case, model=o, code_keys=keys, code_lumped=neginf))
+            continue
         got = np.asarray(got)
         if o == "bad-op":
             ctx.mismatch(f"{kind}: model rejected the line", dict(line=line[:300]))
@@ -173,6 +187,38 @@ def corr(ctx):
             ctx.mismatch(f"{kind}: model and code differ", dict(case=case, model=o[:400], code=got))
     ctx.sample(dict(protocol_line=lines[0][:200], model=out[0][:200]))
     ctx.sample(dict(protocol_line=lines[3][:300], model=out[3][:200], code=checks[3][1]))
+
+
+def sea_corr(ctx, lines, checks):
+    """Data_K.get_bands_in_range_groups_ik(sea=True) against the model, on dyadic sorted spectra with multiplets and
+    the lower edge of the range inside / at / between the members of a multiplet"""
+    from wannierberri.data_K.data_K import Data_K
+    rng = ctx.rng
+    for it in range(ctx.n(60, 600)):
+        th = Fr(rng.choice([1, 3]), 2 ** rng.choice([6, 13]))
+        n = rng.randint(2, 7)
+        kr = rng.random() < 0.3
+        if kr and n % 2:
+            n += 1
+        E = [Fr(rng.randint(-8, 8), 4)]
+        for _ in range(n - 1):
+            E.append(E[-1] + rng.choice([Fr(0), Fr(0), th / 2, th, th * Fr(17, 16), th * 3, Fr(1, 4), Fr(1)]))
+        i = rng.randrange(n)
+        emin = rng.choice([E[i], E[i] + th / 4, E[i] - th / 4, (E[i] + E[min(i + 1, n - 1)]) / 2, E[0] - 1, E[-1] + 1])
+        emax = rng.choice([E[-1] + 2, E[-1], emin, emin + th, emin + Fr(1, 2)])
+        if emax < emin:
+            emax = emin
+        st = _Stub(np.array([[float(e) for e in E]]), None)
+        case = dict(E=[float(e) for e in E], thr=float(th), kramers=kr, emin=float(emin), emax=float(emax))
+        with ctx.attempt("Data_K.get_bands_in_range_groups_ik(sea=True)", case):
+            w = Data_K.get_bands_in_range_groups_ik(st, 0, float(emin), float(emax), degen_thresh=float(th),
+                                                    degen_Kramers=kr, sea=True)
+            keys = [(int(a), int(b)) for a, b in w.keys()]
+            neginf = [(int(a), int(b)) for (a, b), v in w.items() if v == -np.inf]
+            lines.append(f"sea {rats(E)} {rat(th)} {int(kr)} {rat(emin)} {rat(emax)}")
+            checks.append(("sea", (keys, neginf), case))
+            inside = any(emin - th <= e <= emin + th for e in E)
+            ctx.count("corr.sea.edge_near_a_band" if inside else "corr.sea.edge_far")
 
 
 # ------------------------------------------------------------------------------------------------
@@ -259,6 +305,80 @@ def case_ahc_above(ctx, case):
                  f"Efermi grid {np.abs(d).max():.3e})", dict(case, Efermi=Ef, NK=NK, ahc=d))
     if np.abs(d[0]).max() > 1e-9 * scale:
         ctx.fail(f"internal AHC with the Fermi level below all bands is {d[0].tolist()}", dict(case, Efermi=Ef, NK=NK))
+
+
+def tune_spectrum(s, k0, modify):
+    """add a k-independent Hermitian on-site term to the Hamiltonian so that H(k0) keeps its eigenvectors and gets
+    the eigenvalues modify(e); returns the new eigenvalues at k0"""
+    iR = np.array(s.rvec.iRvec)
+    H = np.array(s.get_R_mat("Ham"))
+    ph = np.exp(2j * np.pi * iR.dot(np.array(k0, dtype=float)))
+    Hk = np.einsum("r,rab->ab", ph, H)
+    Hk = 0.5 * (Hk + Hk.conj().T)
+    e, U = np.linalg.eigh(Hk)
+    e2 = np.array(modify(e.copy()), dtype=float)
+    H[s.rvec.iR0] += (U * (e2 - e)[None, :]) @ U.conj().T
+    s.set_R_mat("Ham", H, reset=True)
+    return e2
+
+
+def case_sea_edge(ctx, case):
+    """the lowest Fermi level lies inside / at a (near-)degenerate multiplet of a grid k-point: the groups traced by
+    the Fermi-sea calculators must still partition the bands (internal AHC above all bands = 0, CumDOS = NB)"""
+    from ..wbsys import rand_system, wb
+    from wannierberri.calculators import static as S
+    rs = np.random.RandomState(case["seed"])
+    nw, m, delta = case["nw"], case["m"], case["delta"]
+    with quiet():
+        s = rand_system(rs, num_wann=nw, nR=int(rs.randint(3, 6)), max_R=1, matrices=("Ham", "AA"))
+    i0 = int(rs.randint(0, nw - m + 1))
+
+    def modify(e):
+        for j in range(1, m):
+            e[i0 + j] = e[i0] + j * delta
+        for j in range(i0 + m, len(e)):
+            e[j] = max(e[j], e[i0 + m - 1] + 0.5)
+        return e
+    k0 = np.zeros(3)
+    e2 = tune_spectrum(s, k0, modify)
+    if case["doubled"]:
+        with quiet():
+            s.double_spin()
+        e2 = np.repeat(e2, 2)
+        i0 = 2 * i0
+    NB = s.num_wann
+    where = case["where"]
+    if where == "between":
+        ef0 = 0.5 * (e2[i0] + e2[i0 + 1])
+    elif where == "at_lower":
+        ef0 = e2[i0]
+    elif where == "at_upper":
+        ef0 = e2[i0 + 1]
+    else:
+        ef0 = e2[i0] + 0.25 * (e2[i0 + 1] - e2[i0])
+    H = s.get_R_mat("Ham")
+    bound = float(sum(np.linalg.norm(H[i], 2) for i in range(H.shape[0]))) + 1.0
+    Ef = np.linspace(ef0, max(bound, ef0 + 1.0), int(rs.randint(4, 9)))
+    NKFFT = np.array(s.NKFFT_recommended)
+    NK = NKFFT * np.array([int(rs.randint(1, 3)) for _ in range(3)])
+    kw = dict(Efermi=Ef, degen_thresh=case["degen_thresh"], degen_Kramers=bool(case["doubled"] and case["kramers"]))
+    with quiet():
+        grid = wb.Grid(s, NK=NK, NKFFT=NKFFT)
+        res = wb.run(s, grid=grid, parallel=False, print_Kpoints=False, symmetrize=False, calculators={
+            "ahc": S.AHC(kwargs_formula={"external_terms": False}, **kw), "cumdos": S.CumDOS(**kw)})
+    d = res.results["ahc"].data
+    cum = res.results["cumdos"].data
+    from wannierberri.factors import factor_ahc
+    scale = np.abs(d).max() + abs(factor_ahc) / s.cell_volume
+    ctx.case(signature=("sea", case["seed"], nw, m, delta, case["doubled"], where, case["degen_thresh"]), nontrivial=True)
+    info = dict(case, Efermi=Ef, NK=NK, levels_at_Gamma=e2)
+    if abs(cum[-1] - NB) > 1e-9 or cum.max() > NB + 1e-9 or np.any(np.diff(cum) < -1e-9):
+        ctx.fail(f"CumDOS with the lowest Fermi level {ef0!r} at a multiplet of Gamma: top value {cum[-1]!r} for {NB} bands "
+                 f"(states counted twice or lost at the lower edge of the Fermi list)", dict(info, cumdos=cum))
+    if np.abs(d[-1]).max() > 1e-9 * scale:
+        ctx.fail(f"internal AHC above all bands is {d[-1].tolist()} when the lowest Fermi level {ef0!r} lies at a "
+                 f"multiplet of Gamma (degen_thresh={case['degen_thresh']}): the band groups do not partition the bands",
+                 dict(info, ahc_top=d[-1], ahc_max=np.abs(d).max()))
 
 
 # ---- independent Chern-number reference (no wannierberri formula involved) ----------------------
@@ -379,7 +499,7 @@ def case_chern(ctx, case):
         ctx.fail(f"in-plane components of the AHC vector of a 2D model are not zero: {d.tolist()}", dict(case, ahc=d))
 
 
-RUNNERS = {"sumk": case_sumrule_k, "ahc": case_ahc_above, "chern": case_chern}
+RUNNERS = {"sumk": case_sumrule_k, "ahc": case_ahc_above, "chern": case_chern, "sea": case_sea_edge}
 
 
 def gen_chern_case(rng):
@@ -403,6 +523,13 @@ def oracle(ctx, scale):
         cases.append(dict(kind="ahc", seed=rng.getrandbits(31), nw=rng.randint(2, 5), doubled=rng.random() < 0.25,
                           tetra=(ctx.tier == "thorough" and rng.random() < 0.3), kramers=rng.random() < 0.5,
                           degen_thresh=rng.choice([1e-4, -1, 0.05, 0.3])))
+    for _ in range(ctx.n(10, 80) * scale):
+        dbl = rng.random() < 0.35
+        delta = 0.0 if dbl else rng.choice([0.0, 5e-5, 2e-5, 0.02, 0.004])
+        cases.append(dict(kind="sea", seed=rng.getrandbits(31), nw=rng.randint(2, 4) if dbl else rng.randint(3, 5),
+                          m=1 if dbl else rng.choice([2, 2, 3]), delta=delta, doubled=dbl, kramers=rng.random() < 0.5,
+                          where=rng.choice(["between", "at_lower", "at_upper", "quarter"]),
+                          degen_thresh=(rng.choice([1e-4, 0.05]) if delta < 1e-4 else 0.05)))
     # the default models of models.py in both builders are always included
     for b in ("ptb", "tbm"):
         cases.append(dict(kind="chern", seed=1, builder=b, delta=0.2, hop1=-1.0, hop2=0.15, phi=np.pi / 2, perturb=0,
@@ -425,7 +552,8 @@ def replay(ctx, case):
         if isinstance(c, dict) and c.get("kind") in RUNNERS:
             keys = {"sumk": ("kind", "seed", "nw", "doubled"),
                     "ahc": ("kind", "seed", "nw", "doubled", "tetra", "kramers", "degen_thresh"),
-                    "chern": ("kind", "seed", "builder", "delta", "hop1", "hop2", "phi", "perturb", "NK", "NKFFT")}[c["kind"]]
+                    "chern": ("kind", "seed", "builder", "delta", "hop1", "hop2", "phi", "perturb", "NK", "NKFFT"),
+                    "sea": ("kind", "seed", "nw", "m", "delta", "doubled", "kramers", "where", "degen_thresh")}[c["kind"]]
             cc = {k: c[k] for k in keys}
             print("replaying", cc)
             RUNNERS[c["kind"]](ctx, cc)
